@@ -124,7 +124,25 @@ def replay_plan(sc, plan):
     for i in plan:
         o, r, done, trunc, info = env.step(int(i))
         total += float(r)
-    return bool(done), total
+    if not done or not plan:
+        return bool(done), total
+    # the same sequence must also end with the terminal flag (a) through generative_step from a stored initial state,
+    # twice in a row without a reset in between, and (b) on two environments of the scenario stepped alternately
+    for _ in range(2):
+        s = env.generate_initial_state()
+        d2 = False
+        for i in plan:
+            s, o, r, d2, info = env.generative_step(s, int(i))
+        if not d2:
+            return False, total
+    ea = NASimEnv(sc, fully_obs=True, flat_actions=True, flat_obs=True)
+    eb = NASimEnv(sc, fully_obs=False, flat_actions=True, flat_obs=True)
+    ea.reset(); eb.reset()
+    da = db = False
+    for i in plan:
+        da = ea.step(int(i))[2]
+        db = eb.step(int(i))[2]
+    return bool(da and db), total
 
 
 def run_case(args):
@@ -209,6 +227,11 @@ def run_case(args):
             res["findings"].append(dict(property="C14", kind="failing-input",
                 what="the same parameters and seed give different scenarios in different processes / hash seeds",
                 replay=dict(replay, fingerprints={str(k): v[0][:16] for k, v in fps.items()})))
+        elif w.get("trajectory_lookahead") not in (None, w.get("trajectory")):
+            res["findings"].append(dict(property="C14", kind="failing-input",
+                what="the same seed, scenario and action sequence give another trajectory when generative_step is called on "
+                     "stored states in between (the global generator restored after every such call)",
+                replay=dict(replay, plain=(w.get("trajectory") or "")[:16], lookahead=w["trajectory_lookahead"][:16])))
         elif len(set(v[1] for v in fps.values())) > 1:
             res["findings"].append(dict(property="C14", kind="failing-input",
                 what="the same seed, scenario and action sequence give different trajectories in different processes",
